@@ -479,3 +479,71 @@ macro_rules! hist19 {
         $m!($($a)* roto::Val<$crate::probe::Mid>);
     };
 }
+
+// ------------------------------------------------------------------ string views
+
+/// A probe whose descriptors are given explicitly: for Rust types that cannot
+/// be named (and so cannot implement `Desc`). Requests only.
+pub struct X<F> {
+    params: Vec<T>,
+    ret: T,
+    _p: PhantomData<fn() -> F>,
+}
+
+impl<F: RotoFunc + 'static> Probe for X<F> {
+    fn params(&self) -> Vec<T> {
+        self.params.clone()
+    }
+    fn ret(&self) -> T {
+        self.ret.clone()
+    }
+    fn get(&self, pkg: &mut Package<NoCtx>, name: &str) -> Got {
+        match pkg.get_function::<F>(name) {
+            Ok(f) => {
+                drop(f);
+                Got::HandleOnly
+            }
+            Err(e) => Got::Refused(head(&e)),
+        }
+    }
+}
+
+pub fn probe_explicit<F: RotoFunc + 'static>(params: Vec<T>, ret: T) -> Box<dyn Probe> {
+    Box::new(X::<F> { params, ret, _p: PhantomData })
+}
+
+/// The seven request shapes for one string view `V`. `V` is never named: it
+/// is inferred from a public method of `RotoString` (`_witness`), exactly as
+/// a downstream crate could do it with `roto::Value` as the only bound.
+pub fn view_probes<V: Value>(v: &mut Table, _witness: fn(RotoString) -> V, leaf: Leaf) {
+    let d = T::L(leaf);
+    let s = T::L(Leaf::Str);
+    let u = T::L(Leaf::Unit);
+    let o = T::Opt(Box::new(d.clone()));
+    let li = T::List(Box::new(d.clone()));
+    v.push(probe_explicit::<fn(RotoString) -> V>(vec![s], d.clone()));
+    v.push(probe_explicit::<fn(V) -> ()>(vec![d.clone()], u.clone()));
+    v.push(probe_explicit::<fn() -> V>(vec![], d.clone()));
+    v.push(probe_explicit::<fn(Option<V>) -> ()>(vec![o.clone()], u.clone()));
+    v.push(probe_explicit::<fn() -> Option<V>>(vec![], o));
+    v.push(probe_explicit::<fn(List<V>) -> ()>(vec![li.clone()], u));
+    v.push(probe_explicit::<fn() -> List<V>>(vec![], li));
+}
+
+/// string-view probes plus nameable controls of the same shapes
+pub fn views_table() -> Table {
+    let mut v: Table = vec![];
+    view_probes(&mut v, RotoString::lines, Leaf::Lines);
+    view_probes(&mut v, RotoString::bytes, Leaf::Bytes);
+    view_probes(&mut v, RotoString::chars, Leaf::Chars);
+    v.push(probe::<fn(RotoString) -> RotoString>());
+    v.push(probe::<fn(RotoString) -> ()>());
+    v.push(probe::<fn() -> RotoString>());
+    v.push(probe::<fn(Option<RotoString>) -> ()>());
+    v.push(probe::<fn() -> Option<RotoString>>());
+    v.push(probe::<fn(List<RotoString>) -> ()>());
+    v.push(probe::<fn() -> List<RotoString>>());
+    v.push(probe::<fn(u8) -> ()>());
+    v.push(probe::<fn() -> u8>());
+    v
+}
